@@ -171,8 +171,8 @@ func ParseLogLine(line string) (*AuditMessage, error) {
 		return nil, errInvalidAuditHeader
 	}
 
-	// Verify type=XXX is before msg=
-	if msgIndex < len(typeToken)+1 {
+	// Verify type=XXX is before msg= and separated from it by a space.
+	if msgIndex < len(typeToken)+1 || line[msgIndex-1] != ' ' {
 		return nil, errInvalidAuditHeader
 	}
 
